@@ -352,6 +352,20 @@ impl Vm {
     //@  ensures @an_object_without_next_is_an_attribute_error (old(self).top(0) is ObjInstance && !old(self).inst_of(old(self).top(0)).fields.view.dom().contains(old(self).next_string.id()) && !has_method(old(self).inst_of(old(self).top(0)).class, old(self).next_string.id())) ==> final(self).raised == Some(ErrorKind::AttributeError) && final(self).called == old(self).called
     //@end
 
+    // GetClass (`Self`, compiled as "read the variable named Self, then GetClass"; also the first step of `type(x)`):
+    // a CLASS on top of the stack stays that very class — so inside a static method, whose slot 0 holds the class the
+    // method was invoked through (calls/Vm::call_value: the receiver goes into the callee slot), `Self` is that class,
+    // for an inherited static method the subclass it was called on; an instance is replaced by its class; nothing
+    // else on the stack moves.
+    //@fn file=yarel/src/vm.rs path=Vm::get_class_impl props=C07
+    //@  subst "instance.borrow()" => "self.inst(instance)"
+    //@  requires old(self).wf(), old(self).stack.len() >= 1
+    //@  ensures @the_class_of_a_class_value_is_that_class_itself old(self).top(0) is ObjClass ==> final(self).stack == old(self).stack
+    //@  ensures @the_class_of_an_instance_is_the_class_it_was_made_from old(self).top(0) is ObjInstance ==> final(self).stack == old(self).stack.drop_last().push(Value::ObjClass(old(self).inst_of(old(self).top(0)).class))
+    //@  ensures @the_class_of_anything_else_is_the_class_of_its_kind !(old(self).top(0) is ObjClass) ==> final(self).stack == old(self).stack.drop_last().push(Value::ObjClass(old(self).class_of(old(self).top(0))))
+    //@  ensures old(self).same_heap(final(self)), final(self).raised == old(self).raised, final(self).called == old(self).called
+    //@end
+
     // `super.name` / `super.name(args)`: the class value the compiler pushed (the `super` variable captured at class
     // definition) decides — not the receiver's class.
     //@fn file=yarel/src/vm.rs path=Vm::get_super_impl ret=r
